@@ -99,6 +99,13 @@ theorem C06_message_trip_actisense (m : MsgIn) (line : List Char)
   obtain ⟨⟨hp, hs, hg, hd⟩, B, hB, rfl⟩ := encodeActisense_inv shippedEnc m line he
   exact ⟨B, hB, Wire.C06_actisense_rt m.prio m.dst m.src m.pgn B (by omega) (by omega) (by omega) (by omega) (callEncode_mk_bytes _ _ _ m B hB)⟩
 
+/-- **The addressing guard of the model is the translated `_check_header`** (T2: `Gen/Straight.lean` is regenerated from
+`nmea2000/encoder.py` on every run): the messages every format refuses are exactly those the source's checks reject -/
+theorem C06_header_check_translated (m : MsgIn) :
+    (7 < m.prio ∨ 255 < m.src ∨ 0x3FFFF < m.pgn ∨ 255 < m.dst) ↔ Straight.check_header m.prio m.src m.pgn m.dst = false := by
+  unfold Straight.check_header
+  grind
+
 /-- out-of-range addressing is refused by the Actisense encoder exactly as by the three CAN formats -/
 theorem C06_actisense_rejects_out_of_range (L : EncLayer) (m : MsgIn)
     (h : 7 < m.prio ∨ 255 < m.src ∨ 0x3FFFF < m.pgn ∨ 255 < m.dst) :
